@@ -52,7 +52,7 @@ func (w *XMLWriter) Attr(key, value string) *XMLWriter {
 		w.b.WriteString(" ")
 		w.b.WriteString(key)
 		w.b.WriteString("=\"")
-		w.writeEsc(value)
+		w.writeEsc(value, true)
 		w.b.WriteString("\"")
 	} else {
 		log.Print("tag is not open")
@@ -86,7 +86,7 @@ func (w *XMLWriter) write(s string) {
 func (w *XMLWriter) Write(s string) *XMLWriter {
 	w.checkOpenTag()
 	w.checkIndent()
-	w.writeEsc(s)
+	w.writeEsc(s, false)
 	return w
 }
 
@@ -96,9 +96,27 @@ func (w *XMLWriter) WriteHTML(s template.HTML) *XMLWriter {
 	return w
 }
 
-func (w *XMLWriter) writeEsc(s string) {
+// writeEsc writes the string as character data or, if attr is set, as the
+// value of an attribute. A parser replaces a carriage return by a line feed,
+// and in an attribute value also tabs and line feeds by blanks, unless they
+// are written as character references.
+func (w *XMLWriter) writeEsc(s string, attr bool) {
 	for _, r := range s {
 		switch r {
+		case '\r':
+			w.b.WriteString("&#xD;")
+		case '\n':
+			if attr {
+				w.b.WriteString("&#xA;")
+			} else {
+				w.b.WriteRune(r)
+			}
+		case '\t':
+			if attr {
+				w.b.WriteString("&#x9;")
+			} else {
+				w.b.WriteRune(r)
+			}
 		case '\'':
 			w.b.WriteString("&apos;")
 		case '"':
